@@ -8,7 +8,8 @@ from vlib import graphs as g, ctxrun, vsched, explore
 ID = "C12"
 LEVEL = "exploration"
 RULE = (
-    "violation kind {wrong dtype as bare array, wrong dtype inside a Chunk, row before / after the chunk range, chunk labelled "
+    "violation kind {wrong dtype (other fields) as bare array / inside a Chunk, wrong dtype with the SAME field names but another "
+    "number format as bare array / inside a Chunk, row before / after the chunk range, a non-last row ending after the chunk, chunk labelled "
     "with another data type, target chunks overlapping, target chunks with a gap, non-dict from a multi-output plugin} x plugin "
     "kind {source, ordinary, multi-output, down-chunking, loop, cut, overlap-window} (applicable pairs) x offending chunk {first, "
     "middle, last} x processor {single_thread, threaded (controlled default schedule; thorough: all schedules with <=1 delay)} x "
@@ -33,9 +34,35 @@ KINDS = {
     "cut": ("cutg", "ct", None),
     "overlap": ("overlap_mid", "ow", "mp"),
 }
+def wrong_fmt(dt):
+    """same field names and titles, but the last field has another number format"""
+    d = []
+    for i, nm in enumerate(dt.names):
+        f = dt.fields[nm]
+        title = f[2] if len(f) > 2 else None
+        fmt = f[0]
+        if i == len(dt.names) - 1:
+            fmt = np.dtype(np.float32) if fmt.kind in "iu" else np.dtype(np.int32)
+        d.append(((title, nm), fmt) if title is not None else (nm, fmt))
+    return np.dtype(d)
+
+
+def to_wrong(arr, dt):
+    w = np.zeros(len(arr), dt)
+    for nm in dt.names:
+        if nm in arr.dtype.names:
+            w[nm] = arr[nm]
+    if "endtime" in dt.names:
+        w["endtime"] = strax.endtime(arr)
+    return w
+
+
 VIOLS = {
     "dtype_bare": ("ordinary", "multi", "loop", "cut", "overlap"),
     "dtype_chunk": ("source", "ordinary", "multi", "downchunk", "loop", "cut", "overlap"),
+    "dtype_fmt_bare": ("ordinary", "multi", "loop", "cut", "overlap"),
+    "dtype_fmt_chunk": ("source", "ordinary", "multi", "downchunk", "loop", "cut", "overlap"),
+    "row_late_inner": ("source", "ordinary", "multi", "downchunk", "loop", "overlap"),
     "row_early": ("source", "ordinary", "multi", "downchunk", "loop", "cut", "overlap"),
     "row_late": ("source", "ordinary", "multi", "downchunk", "loop", "cut", "overlap"),
     "wrong_label": ("source", "ordinary", "multi", "downchunk", "loop", "cut", "overlap"),
@@ -69,6 +96,17 @@ def make_post(viol, node, pos, multi_first):
             w = np.zeros(len(arr), WRONG)
             w["time"], w["endtime"] = arr["time"], strax.endtime(arr)
             return as_chunk(plugin, arr, start, end, dt_name, dtype=WRONG, data=w)
+        if viol == "dtype_fmt_bare":
+            return to_wrong(arr, wrong_fmt(arr.dtype))
+        if viol == "dtype_fmt_chunk":
+            return as_chunk(plugin, arr, start, end, dt_name, dtype=wrong_fmt(arr.dtype), data=to_wrong(arr, wrong_fmt(arr.dtype)))
+        if viol == "row_late_inner":
+            if len(arr) < 2:
+                state["hit"] = False
+                return arr
+            a = arr.copy()
+            a["endtime"][0] = end + 100  # rows stay sorted by time; the LAST row still ends inside the chunk
+            return a
         if viol in ("row_early", "row_late"):
             a = arr.copy()
             if not len(a):
@@ -108,6 +146,16 @@ def make_post(viol, node, pos, multi_first):
                 return strax.Chunk(start=r.start, end=r.end, run_id=r.run_id, data_kind=r.data_kind, data_type=r.data_type, dtype=WRONG, data=w)
             if viol == "wrong_label":
                 return strax.Chunk(start=r.start, end=r.end, run_id=r.run_id, data_kind=r.data_kind, data_type="zz_other", dtype=r.dtype, data=r.data)
+            if viol == "dtype_fmt_chunk":
+                wd = wrong_fmt(r.data.dtype)
+                return strax.Chunk(start=r.start, end=r.end, run_id=r.run_id, data_kind=r.data_kind, data_type=r.data_type, dtype=wd, data=to_wrong(r.data, wd))
+            if viol == "row_late_inner":
+                if len(r.data) < 2:
+                    state["hit"] = False
+                    return r
+                a = r.data.copy()
+                a["endtime"][0] = r.end + 100
+                return strax.Chunk(start=r.start, end=r.end, run_id=r.run_id, data_kind=r.data_kind, data_type=r.data_type, dtype=r.dtype, data=a)
             if viol in ("row_early", "row_late"):
                 a = r.data.copy()
                 if not len(a):
